@@ -324,6 +324,8 @@ def check_value(fname, z, cplx, w, mode):
             back = FORWARD[fwd](w)
             if not identity_holds(fwd, w, back, z):
                 return '%s: %s(%r) = %r, not %r' % (fname, fwd, w, back, z)
+            if fname == 'arccot' and z == 0 and not close(w, PI / 2):
+                return 'arccot(0) = %r, textbook value pi/2 (in either convention)' % (w,)
             if not cplx and real_domain(fname, z.real) == 'in':
                 lo, hi = REAL_RANGE[fname]
                 if abs(w.imag) > 0:
